@@ -5,7 +5,7 @@ import pool as P
 
 def run(ctx):
     P.run_property(ctx, "C08",
-                   [(P.gen_faults, 90, 3000), (P.gen_server_drops, 10, 200), (P.gen_maintenance, 16, 300), (P.gen_concurrent, 20, 600), (P.gen_stale_under_traffic, 3, 20), (P.gen_slow_peer, 3, 6), (P.gen_silent_idle_peer, 2, 12), (P.gen_stalled_command, 4, 16)],
+                   [(P.gen_faults, 90, 3000), (P.gen_server_drops, 10, 200), (P.gen_maintenance, 16, 300), (P.gen_concurrent, 20, 600), (P.gen_stale_under_traffic, 3, 20), (P.gen_slow_peer, 3, 6), (P.gen_silent_idle_peer, 2, 12), (P.gen_stalled_command, 4, 16), (P.gen_topup_after_failed_send, 3, 12)],
                    "histories of 3..7 sends over one transport where the n-th GREET/EHLO/NOOP/MAIL/RCPT/DATA/end-of-data is answered 4xx, 5xx, by closing, or committed-then-closed "
                    "(every (step, action) cell at least twice, then 1..3 random faults); server silently dropping idle connections between sends; min_idle 0..3, max_size 0..3, idle timeout 40/80 ms and long; sync and tokio.  "
                    "Oracle: no MAIL on a connection after a failed command, every reuse preceded by NOOP, a send fails only if a fault/drop/shutdown hit it, Debug idle count <= max_size, "
